@@ -141,7 +141,8 @@ class C05(SimSpec):
         crowd = scenarios(min_obs=3, start_gaps=(0, 0, 0, 1), overlap=True, modes=('roomy',), delays=True, **kw)
         crowd2 = scenarios(min_obs=3, start_gaps=(0, 0, 1), few_machines=True, **kw)
         probe = scenarios(modes=('tiering',), **kw)
-        return mix((4, main), (3, crowd), (1, crowd2), (1, limited(kw, delays=True)), (1, probe))
+        return mix((3, main), (3, crowd), (1, crowd2), (1, limited(kw, delays=True)),
+                   (1, scenarios(unsorted=True, min_obs=2, delays=True, **kw)), (1, probe))
 
     def sig(self, v, tr):
         if tr.tiering_entered:
@@ -293,7 +294,8 @@ class C04(SimSpec):
     def strategy(self, tier):
         kw = self.gen_kwargs(tier)
         return mix((4, scenarios(delays=True, min_obs=2, **kw)), (1, scenarios(delays=True, **kw)),
-                   (2, crowd(kw, delays=True)), (3, scenarios(adversary=True, delays=True, **kw)))
+                   (2, crowd(kw, delays=True)), (1, scenarios(unsorted=True, min_obs=2, delays=True, **kw)),
+                   (3, scenarios(adversary=True, delays=True, **kw)))
 
     def aborted(self, tr):
         return tr.status != 'completed' and tr.sc['alg']['kind'] != 'adversary'
@@ -437,6 +439,7 @@ class C08(SimSpec):
                    (1, scenarios(min_obs=2, few_machines=True, **kw)),
                    (2, scenarios(min_obs=3, start_gaps=(0, 0, 0, 1), overlap=True, modes=('roomy',), delays=True, **kw)),
                    (2, limited(kw)),
+                   (1, scenarios(unsorted=True, min_obs=2, **kw)),
                    (1, scenarios(min_obs=3, start_gaps=(0, 0, 1), **kw)))
 
     def nontrivial(self, tr):
@@ -521,6 +524,7 @@ class C12(SimSpec):
         return mix((3, scenarios(min_obs=2, delays=True, start_gaps=(0, 0, 1, 1, 2, 3), overlap=True,
                                  modes=('roomy',), max_duration=8, **kw)),
                    (1, scenarios(min_obs=2, delays=True, start_gaps=(0, 0, 1, 1, 2, 3), **kw)),
+                   (1, scenarios(unsorted=True, min_obs=2, delays=True, **kw)),
                    (1, scenarios(delays=True, **kw)))
 
     def nontrivial(self, tr):
@@ -558,7 +562,8 @@ class C13(SimSpec):
 
     def strategy(self, tier):
         kw = self.gen_kwargs(tier)
-        base = mix((3, scenarios(min_obs=2, delays=True, **kw)), (2, crowd(kw)), (1, scenarios(**kw)))
+        base = mix((3, scenarios(min_obs=2, delays=True, **kw)), (2, crowd(kw)),
+                   (1, scenarios(unsorted=True, min_obs=2, **kw)), (1, scenarios(**kw)))
 
         def add(pair):
             sc, fr = pair
@@ -661,7 +666,8 @@ class C19(SimSpec):
 
     def strategy(self, tier):
         kw = self.gen_kwargs(tier)
-        return mix((3, scenarios(delays=True, **kw)), (1, crowd(kw, delays=True)))
+        return mix((3, scenarios(delays=True, **kw)), (1, crowd(kw, delays=True)),
+                   (1, scenarios(unsorted=True, min_obs=2, delays=True, **kw)))
 
     def nontrivial(self, tr):
         c = tr.counts
